@@ -165,8 +165,14 @@ GatherAndRewriteLevelHeader ==
 Next == Validate \/ MkTreeAndHeader \/ SubmitLevel \/ GatherAndRewriteLevelHeader
         \/ (\E k \in 1..MaxFile : Start(k) \/ Finish(k))
 -----------------------------------------------------------------------------
-VarChoices1 == {None, <<F1[1]>>, <<F1[Len(F1)], F1[1]>>, <<F1[1], "zz">>, <<"zz">>}
-VarChoices2 == {None, <<F2[Len(F2)]>>, <<F2[1], F2[Len(F2)]>>, <<"zz", F2[Len(F2)]>>, <<F1[1]>>}
+\* selections: for short field lists a few representative ones; for inputs with four or more fields EVERY ordered duplicate-free
+\* selection of up to three of the first input's fields (a selection may be in any order, contiguous in the file or not) and
+\* every ordered triple of the second's
+OrderedLists(S, n) == {q \in UNION {[1..k -> S] : k \in 1..n} : \A i, j \in DOMAIN q : i # j => q[i] # q[j]}
+VarChoices1 == IF Len(F1) >= 4 THEN {None} \cup OrderedLists(Rng(F1), 3)
+               ELSE {None, <<F1[1]>>, <<F1[Len(F1)], F1[1]>>, <<F1[1], "zz">>, <<"zz">>}
+VarChoices2 == IF Len(F2) >= 4 THEN {None} \cup {q \in OrderedLists(Rng(F2), 3) : Len(q) = 3}
+               ELSE {None, <<F2[Len(F2)]>>, <<F2[1], F2[Len(F2)]>>, <<"zz", F2[Len(F2)]>>, <<F1[1]>>}
 
 ShiftBox(P, l, b) ==
   [P EXCEPT !.lev[l].idx[b] = 90 + b,
